@@ -137,11 +137,13 @@ class Real:
         self.kinds.append(kind or self.kinds[parent])
 
     def kwargs(self, kw):
-        from flatland import Properties  # noqa: F401
         out = {}
+        self.passed = []
         for attr, val in kw:
             if attr in ("validators", "descent_validators"):
                 out[attr] = [_validator(x) for x in val]
+                if attr == "validators":
+                    self.passed.append(out[attr])     # the caller keeps (and later mutates) this list
             elif attr == "properties":
                 out[attr] = dict((k, v) for k, v in val)
             elif attr == "field_schema":
@@ -152,10 +154,15 @@ class Real:
 
     def do(self, step):
         """returns (result tag, instance or None)"""
+        self.passed = []
         try:
             return self._do(step)
         except (TypeError, AttributeError, AssertionError, ValueError, KeyError) as e:
             return type(e).__name__, None
+        finally:
+            # the caller goes on using the list it passed as validators=…: the schema must hold a copy
+            for lst in self.passed:
+                lst.append(_validator(99))
 
     def _do(self, step):
         t = step["t"]
@@ -311,6 +318,13 @@ def oracle_chain(case):
                 if type(content) is list and (ident2 != ident):
                     fails.append({"clause": "frame-identity", "step": n_step, "class": i, "attrs": [attr],
                                   "expected": "same object", "observed": "attribute rebound"})
+        if r == "ok" and step["t"] in ("using", "inst"):
+            # the list the caller passed as validators=… (and mutated afterwards) must have been copied
+            holder = inst if (step["t"] == "inst" and real.kinds[step["c"]] != "compound") else real.classes[-1]
+            if any(getattr(v, "label", None) == 99 for v in holder.validators):
+                fails.append({"clause": "aliasing-with-caller", "step": n_step, "class": step["c"],
+                              "attrs": ["validators"], "expected": "a copy of the caller's list",
+                              "observed": [getattr(v, "label", "?") for v in holder.validators]})
         if r == "ok" and step["t"] != "inst":
             new, parent = real.classes[-1], real.classes[step["c"]]
             if len(real.classes) != n + 1 or new is parent or new.__mro__[1] is not parent:
